@@ -52,6 +52,23 @@ impl Runner {
                 "vacuum" => format!("vacuum {}", self.db.vacuum().map(|_| "ok".to_string()).unwrap_or_else(|e| format!("ERR {}", e))),
                 "analyze" => format!("analyze {:?}", self.db.analyze()),
                 "explain" => format!("explain {:?}", self.db.explain(arg)),
+                "attach" => {
+                    // open a copy of an existing database directory (e.g. one made by @snap) instead of the fresh one
+                    self.sessions.clear();
+                    let dir = fresh_dir("attach");
+                    copy_dir(std::path::Path::new(arg), &dir);
+                    match Dbx::open_in(dir, self.db.cfg) {
+                        Ok(d) => {
+                            self.db = d;
+                            "attach ok".into()
+                        }
+                        Err(e) => format!("attach ERR {}", e),
+                    }
+                }
+                "snap" => {
+                    copy_dir(&self.db.dir, std::path::Path::new(arg));
+                    format!("snap {}", arg)
+                }
                 "reopen" => {
                     self.sessions.clear();
                     let c = self.db.cfg;
